@@ -27,6 +27,14 @@ claimed = {
         "NOT decided: agreement ACROSS participants (same verdicts, same group key) is the assume-guarantee composition over a reliable broadcast channel (paper step); that the public shares are the polynomial images of the vector (E2_polynomial_images: memory safety only) and the summation of the qualified dealers' keys (sumUpQualifiedKeys: assumed contract); Joint-Feldman's per-message loops (Start / NextTimeout / Handle*) are not part of this check.",
    note=TRUSTED + " G2 arithmetic and the equality test are BLST primitives (uninterpreted; equality is reflexive and blind to the affine conversion: assumed); g2vecValid (a 96n-byte string decodes to n G2 points) is an abstract predicate introduced by an assumed clause; composition across participants is not machine-checked.",
    design="§0.2, §5 C07"),
+ "C11": dict(
+   text="ECDSA Sign / Verify / SignatureFormatCheck are verified (go/ssa) over assumed contracts of crypto/ecdsa, math/big and the Hasher interface, for both curves: "
+        "Verify returns errNilHasher for a nil hasher and an invalidHasherSizeError for a hasher shorter than 32 bytes; otherwise (result, nil) with result == (len(sig) == 64 && 1 <= r, s < n && ECDSA equation on the hasher's digest of the data), r and s being the big-endian values of the two 32-byte halves (so a longer or shorter string, r or s in {0, n, ...} are rejected with (false, nil)); the digest handed to crypto/ecdsa is the whole hasher output; "
+        "Sign returns the 64 bytes r || s, each left-padded to 32 bytes, of the pair crypto/ecdsa.Sign returned for the WHOLE digest (r, s in [1, n-1]), same guards; keys are left unmodified; "
+        "SignatureFormatCheck(algo, s) == (len(s) == 64 && 1 <= r, s < n_algo) with the group order of the algorithm's own curve (P-256 / secp256k1 constants), an invalid-input error for other algorithms; hence format check false implies Verify false for every key and message of that curve. "
+        "NOT decided: that crypto/ecdsa implements ECDSA on the leftmost 256 bits (assumed contract), the (r, n-s) twin statement (a consequence of the assumed equation), secp256k1 going through Go's generic-curve path.",
+   note=TRUSTED + " crypto/ecdsa, math/big, crypto/elliptic, btcec are assumed contracts; the curve contexts' values are assumed global facts; the representation invariant of key objects is a precondition (constructors: see C12/C05).",
+   design="§0.2, §5 C11"),
  "C04": dict(
    text="Every aggregation function is proved, for all list lengths and contents, to return THE sum of its inputs in the group it works in, stated with spec-level left folds (e1sum / e2sum / frsum: identity for n <= 0, add(sum(n-1), x[n-1]) otherwise) over the uninterpreted BLST additions: "
         "C (from the clang AST): Fr_sum_vector, E1_sum_vector, E2_sum_vector (loop invariant `partial sum`), E2_sum_vector_to_affine (= affine form of the sum, infinity preserved), E2_subtract_vector (= x + (-(sum y))), "
